@@ -75,10 +75,26 @@ class Rec:
         self.mm.append(m)
 
 
-FORMS = ("f32", "f64", "f16", "i32", "i64", "atoms", "f32s", "f64F", "i64s")   # RigidFitOps!Forms
-INT_FORMS = ("i32", "i64", "i64s")
+FORMS = ("f32", "f64", "f16", "i32", "i64", "atoms", "f32s", "f64F", "i64s", "f32m", "f64u", "i32u")   # RigidFitOps!Forms
+INT_FORMS = ("i32", "i64", "i64s", "i32u")
+SUBCLASS_FORMS = ("f32m", "f64u", "i32u")
+FINE_FORMS = tuple(f for f in FORMS if f not in INT_FORMS and f != "f16")      # RigidFitOps!FineForms
 _DT = {"f32": "float32", "f64": "float64", "f16": "float16", "i32": "int32", "i64": "int64",
-       "f32s": "float32", "f64F": "float64", "i64s": "int64"}
+       "f32s": "float32", "f64F": "float64", "i64s": "int64", "f32m": "float32", "f64u": "float64", "i32u": "int32"}
+_SUB = None
+
+
+def _user_subclass():
+    """A trivial user subclass of ndarray (coordinates handed over as arr.view(Coordinates))."""
+    global _SUB
+    if _SUB is None:
+        np = _np()
+
+        class Coordinates(np.ndarray):
+            pass
+
+        _SUB = Coordinates
+    return _SUB
 
 
 def shaped(models, depth, form, half=0):
@@ -87,11 +103,18 @@ def shaped(models, depth, form, half=0):
     ndarray of the given dtype / memory layout, or AtomArray / AtomArrayStack.  half = 1: every
     coordinate displaced by 1/2 (Dom_Form: never with an integer form)."""
     np = _np()
-    import biotite.structure as struc
 
     vals = np.array(models[0] if depth == 0 else models, dtype=np.float64)
     if half:
         vals = vals + 0.5
+    return shaped_vals(vals, depth, form)
+
+
+def shaped_vals(vals, depth, form):
+    """float64 coordinates of shape (n,3) (depth 0) / (depth,n,3) -> the FORM."""
+    np = _np()
+    import biotite.structure as struc
+
     n = vals.shape[-2]
     if form == "atoms":
         a = struc.AtomArray(n) if depth == 0 else struc.AtomArrayStack(depth, n)
@@ -112,19 +135,30 @@ def shaped(models, depth, form, half=0):
         return v
     if form == "f64F":
         return np.asfortranarray(vals.astype(dt))
+    if form == "f32m":       # numpy.memmap (an ndarray subclass), read-only, e.g. a frame of a trajectory file
+        import tempfile
+
+        with tempfile.TemporaryFile() as f:
+            f.write(np.ascontiguousarray(vals.astype(dt)).tobytes())
+            f.flush()
+            return np.memmap(f, dtype=dt, mode="r", shape=vals.shape)
+    if form in ("f64u", "i32u"):     # a user subclass of ndarray
+        return vals.astype(dt).view(_user_subclass())
     return vals.astype(dt)
 
 
 def scribble(obj):
     """The caller overwrites an array it got from an accessor, in place."""
     np = _np()
-    arr = obj.coord if hasattr(obj, "coord") else obj
+    arr = obj if isinstance(obj, np.ndarray) else obj.coord
     np.add(arr, 100, out=arr, casting="unsafe")
 
 
 def coords(x):
+    """The coordinates a caller holds: an ndarray (of any subclass) IS the coordinates ("only
+    coordinates are returned, if coordinates were given"), an atom container has them in .coord."""
     np = _np()
-    return np.array(x.coord if hasattr(x, "coord") else x, dtype=float)   # always a copy
+    return np.array(x if isinstance(x, np.ndarray) else x.coord, dtype=float)   # always a plain copy
 
 
 def transform_sanity(tr, mobile, fitted):
